@@ -392,7 +392,17 @@ def attribute_known(base, observed, shared_checker, findings):
       are the reference minus such diagnostics (what C10_keyed_memo_needs_determining_key predicts).
     Both only under ONE Checker shared by several checks; the two effects may occur together."""
     ids = {f["id"] for f in findings}
-    if not shared_checker or not isinstance(base, list) or not isinstance(observed, list):
+    if not isinstance(base, list) or not isinstance(observed, list):
+        return []
+    # C10-union-set-literal-display (any configuration: it depends on the hash seed): a set / frozenset
+    # literal that is a MEMBER of a union is printed by MultiValuedValue.__str__ with a plain repr(), i.e.
+    # in hash order.  Attributed only when the renderings are equal after sorting the elements of every
+    # `{...}` display in the texts.
+    if "C10-union-set-literal-display" in ids and len(base) == len(observed) and base != observed:
+        canon = lambda ds: [[d[0], d[1], d[2], re.sub(r"\{([^{}]*)\}", lambda m: "{" + ", ".join(sorted(m.group(1).split(", "))) + "}", d[3])] for d in ds]  # noqa: E731
+        if canon(base) == canon(observed):
+            return ["C10-union-set-literal-display"]
+    if not shared_checker:
         return []
     used = []
     b, o = base, observed
